@@ -352,6 +352,7 @@ def run(ctx):
     _batch_insert_shift(ctx, repo)
     _placement_sites_key_aware(ctx, repo)
     _inline_cursor_monotone(ctx, repo)
+    _batch_reference_index(ctx, repo)
     ctx.decided.append('C05.l placement bookkeeping keeps, per control key, the latest moment that reads it (running maximum)')
     ctx.decided.append('C05.k the control keys the placement logic orders operations by cover every child of a wrapping operation')
     ctx.decided.append('C05.j a one-shot OP_TREE / Iterable argument is walked once: after it has been flattened into a local, the raw argument is not consumed again')
@@ -967,3 +968,47 @@ def _inline_cursor_monotone(ctx, repo):
     ctx.ob('C05.o', f'{ci.qual}.insert_into_range:cursor-{cur}', ok, '' if ok else
            f'`{ast.unparse(bad[0]) if bad else cur}` (re)sets the write cursor inside the loop over the operations: the scan restarts for every operation, so operations of one call that share '
            'a qubit can be written out of order', ci.mod.rel, (bad[0].lineno if bad else fn.lineno))
+
+
+def _batch_reference_index(ctx, repo):
+    """C05.p - all operations of one batch are placed against the same insertion index."""
+    ctx.decided.append('C05.p Circuit.insert: inside the loop that places the operations of one batch, the reference index k that bounds the placement (p = k, k - 1, '
+                       'earliest_available_moment(.., end_moment_index=k)) is not moved to follow the placement of an item; it follows the placements once per batch')
+    ctx.rule('C05.p', 'one reference index per batch: in Circuit.insert the innermost loop over the items of a batch does not update the variable that is passed as end_moment_index from the placement '
+             'p of an item (opening a fresh moment for NEW_THEN_INLINE moves it by one, which is not a function of p) - moving it after every placement makes later items of the same batch scan from behind the moment they were compatible '
+             'with, so they land after the insert location', floor=1, style='MPT')
+    ci = repo.cls('cirq.circuits.circuit.Circuit')
+    fn = ci.methods.get('insert')
+    if fn is None:
+        raise AnalysisError('Circuit.insert vanished')
+    par = ci.mod.parents()
+    calls = [c for c in ast.walk(fn) if isinstance(c, ast.Call) and isinstance(c.func, ast.Attribute) and c.func.attr == 'earliest_available_moment']
+    n = 0
+    for c in calls:
+        kv = next((k.value for k in c.keywords if k.arg == 'end_moment_index'), None)
+        if not isinstance(kv, ast.Name):
+            continue
+        loop = c
+        while loop in par and not isinstance(loop, (ast.For, ast.While)):
+            loop = par[loop]
+        if not isinstance(loop, (ast.For, ast.While)):
+            continue
+        n += 1
+        # the placement result: every name the call's value is stored in
+        placed = {t.id for a in ast.walk(loop) if isinstance(a, ast.Assign) and any(x is c for x in ast.walk(a.value)) for t in a.targets if isinstance(t, ast.Name)}
+        grow = True
+        while grow:  # names computed from the placement inside the loop (max_p = max(p, max_p))
+            grow = False
+            for a in ast.walk(loop):
+                if isinstance(a, ast.Assign) and len(a.targets) == 1 and isinstance(a.targets[0], ast.Name) and a.targets[0].id not in placed and a.targets[0].id != kv.id \
+                        and placed & {x.id for x in ast.walk(a.value) if isinstance(x, ast.Name)}:
+                    placed.add(a.targets[0].id)
+                    grow = True
+        bad = [a for a in ast.walk(loop) if isinstance(a, (ast.Assign, ast.AugAssign)) and any(isinstance(t, ast.Name) and t.id == kv.id
+                                                                                              for t in (a.targets if isinstance(a, ast.Assign) else [a.target]))
+               and placed & {x.id for x in ast.walk(a.value) if isinstance(x, ast.Name)}]
+        ctx.ob('C05.p', f'{ci.qual}.insert:reference-index-{kv.id}', not bad, '' if not bad else
+               f'`{ast.unparse(bad[0])}` changes `{kv.id}` inside the loop over the items of a batch: the next item of the same batch is placed relative to a later index', ci.mod.rel,
+               bad[0].lineno if bad else c.lineno)
+    if n == 0:
+        raise AnalysisError('Circuit.insert: earliest_available_moment(.., end_moment_index=<name>) inside a loop vanished')
